@@ -25,7 +25,9 @@ RULE = ('array case = front end (keypoints/descriptors/global_features/matches/d
         'given to get_*_fullpath, the tar front end and Matches.lexical_order; seq case = ONE array object written 2-4 times '
         'through several front ends / stores / views (writeable or read-only), every file and the caller\'s array checked; '
         'two case = two images of one feature type written in turn (names differing only by unicode normalisation form, '
-        'case, spacing, or unrelated), first read back, ids listed. Names include non-NFC unicode. '
+        'case, spacing, or unrelated), first read back, ids listed; rewrite case = DIFFERENT arrays written in turn to the SAME '
+        'destination (file or tar member; bigger, smaller, zero rows, other item size), bytes and read-back after every write '
+        'and a bystander file at the end. Names include non-NFC unicode. '
         'Non-trivial = array cases with at least one element or a zero-row array read back with its column count, '
         'and path cases with a nested or non-ASCII name; distinct = distinct case content.')
 TRUSTED = ['numpy: ndarray.tofile / tobytes emit the elements in C order in the array\'s byte order; fromfile / frombuffer '
@@ -317,6 +319,33 @@ def gen_cases(rng, tier):
             cases.append({'k': 'two', 'api': api, 'store': store, 'ftype': rng.choice(GOOD_TYPES), 'n1': n1, 'n2': n2,
                           'a1': {'dtype': d1, 'shape': s1, 'bits': rand_bits(rng, d1, s1[0] * s1[1])},
                           'a2': {'dtype': d2, 'shape': s2, 'bits': rand_bits(rng, d2, s2[0] * s2[1])}})
+    # 6d. DIFFERENT arrays written in turn to the SAME destination (the file / tar member of one image): a write must
+    #     replace what was there -- bigger then smaller, non-empty then zero rows, then bigger again, other item sizes
+    for _ in range(reps):
+        for api in ('keypoints', 'descriptors', 'global_features', 'raw', 'matches', 'depth'):
+            for store in (('file',) if api == 'depth' else ('file', 'tar')):
+                for _rep in range(4 if api in ('keypoints', 'depth') else 3):
+                    plan = rng.choice([[3, 1], [4, 0, 2], [2, 5, 1, 0], [5, 2, 2, 6], [1, 0], [6, 3, 0, 4]])
+                    cols = 3 if api == 'matches' else rng.randint(1, K)
+                    arrays = []
+                    for rows in plan:
+                        if api == 'matches':
+                            dt = 'float64'
+                        elif api == 'depth':
+                            dt = 'float32'
+                        else:
+                            dt = rng.choice(DTYPES)
+                        c = cols if rng.random() < 0.7 or api == 'matches' else rng.randint(1, K)
+                        if api == 'depth':
+                            rows = max(rows, 1) if rng.random() < 0.8 else rows
+                        arrays.append({'dtype': dt, 'shape': [rows, c], 'bits': rand_bits(rng, dt, rows * c),
+                                       'big': api != 'matches' and rng.random() < 0.3, 'layout': rng.choice(LAYOUTS)})
+                    name = rng.choice(GOOD_NAMES)
+                    other = rng.choice([n for n in GOOD_NAMES if n != name])
+                    if api == 'depth':
+                        name, other = name + '.depth', other + '.depth'
+                    cases.append({'k': 'rewrite', 'api': api, 'store': store, 'ftype': rng.choice(GOOD_TYPES),
+                                  'name': name, 'name2': rng.choice(GOOD_NAMES), 'other': other, 'arrays': arrays})
     # 7. paths
     for kind in ('Keypoints', 'Descriptors', 'GlobalFeatures'):
         for name in GOOD_NAMES:
@@ -693,6 +722,57 @@ def _run_two(case, root):
     return obs
 
 
+def _run_rewrite(case, root):
+    from kapture.io.tar import TarHandler
+    tar = case['store'] == 'tar'
+    obs = {'steps': []}
+
+    def write_one(c, arr):
+        handler = None
+        try:
+            if tar:
+                tp = _tar_path(c, root)
+                os.makedirs(os.path.dirname(tp), exist_ok=True)
+                handler = TarHandler(tp, 'a')
+            loc = _locate(c, root, handler)
+            try:
+                _write(c, loc, arr)
+                return 'ok', loc
+            except AssertionError:
+                return 'refused', loc
+            except IndexError:
+                return 'indexerr', loc
+            except Exception as e:
+                return f'other: {type(e).__name__}: {e}'[:200], loc
+        finally:
+            if handler is not None:
+                handler.close()
+    first = case['arrays'][0]
+    by_case = dict(case, name=case['other'], **{k: first[k] for k in ('dtype', 'shape', 'bits', 'big', 'layout')})
+    obs['bystander_write'], _ = write_one(by_case, build_array(by_case))
+    for a in case['arrays']:
+        c = dict(case, **a)
+        c['rd_dtype'], c['rd_dsize'], c['rd_size'] = a['dtype'], a['shape'][1], [a['shape'][1], a['shape'][0]]
+        o = {'found': False, 'hex': None, 'read': None}
+        o['write'], loc = write_one(c, build_array(c))
+        if o['write'] == 'ok':
+            found, data = _doc_bytes(c, root)
+            o['found'], o['hex'] = found, (None if data is None else data.hex())
+            handler = None
+            try:
+                if tar:
+                    handler = TarHandler(_tar_path(c, root), 'r')
+                    loc = (loc[0], handler)
+                o['read'] = _read_obs(lambda: _read(c, loc))
+            finally:
+                if handler is not None:
+                    handler.close()
+        obs['steps'].append(o)
+    found, data = _doc_bytes(by_case, root)
+    obs['bystander_hex'] = None if data is None else data.hex()
+    return obs
+
+
 def _run_path(case, root):
     import numpy as np
     import kapture
@@ -751,6 +831,8 @@ def run_impl(case, ctx):
             return _run_seq(case, root)
         if case['k'] == 'two':
             return _run_two(case, root)
+        if case['k'] == 'rewrite':
+            return _run_rewrite(case, root)
         return _run_path(case, root)
     finally:
         shutil.rmtree(root, ignore_errors=True)
@@ -843,6 +925,35 @@ def oracle(case, obs):
                         f'differently named image was written')
         if obs['listing'] != sorted({case['n1'], case['n2']}):
             return f'{case["api"]}/{case["store"]}: the ids listed from the store are not the image names written'
+        return None
+    if k == 'rewrite':
+        api = case['api']
+        for i, (a, o) in enumerate(zip(case['arrays'], obs['steps'])):
+            tag = f'{api}/{case["store"]}: write #{i + 1} to the same destination'
+            c = dict(case, **a)
+            dt, bits = expected_elems(c)
+            w = ISZ[dt]
+            if o['write'] != 'ok':
+                return f'{tag}: writer failed on a supported array: {o["write"]}'
+            if not o['found']:
+                return f'{tag}: no file at the documented location'
+            want = b''.join(b.to_bytes(w, 'little') for b in bits)
+            got = bytes.fromhex(o['hex'])
+            if len(got) != len(want):
+                return (f'{tag}: file size {len(got)} is not rows x columns x item size = {len(want)} '
+                        f'(content left from the previous write?)')
+            if got != want:
+                return f'{tag}: file is not the row-major little-endian dump of the array just written'
+            if api != 'depth' or (a['shape'][0] > 0 and a['shape'][1] > 0):
+                r = o['read']
+                if 'err' in r:
+                    return f'{tag}: reading back failed: {r["err"]}'
+                if r['dtype'] != dt or r['shape'] != a['shape'] or r['bits'] != bits:
+                    return f'{tag}: the array read back is not the array just written'
+        first = dict(case, **case['arrays'][0])
+        dt, bits = expected_elems(first)
+        if obs['bystander_hex'] is None or bytes.fromhex(obs['bystander_hex']) != b''.join(b.to_bytes(ISZ[dt], 'little') for b in bits):
+            return f'{api}/{case["store"]}: the file of another image changed while this one was rewritten'
         return None
     if k == 'bytes':
         # a conformant file (whole rows) must read as the array it denotes
@@ -942,6 +1053,21 @@ def encode(case, obs):
             ws.append(kv.cpair(ow, ob))
         return (f'(CSeq {m} [] {kv.clist(_API[st["api"]] for st in case["steps"])} {kv.clist(ws)} '
                 f'{_cn_list(obs["after_bits"])} {kv.cbool(obs["dtype_kept"])})')
+    if k == 'rewrite':
+        def mem2(a):
+            return ('{| m_dtype := %s; m_shape := %s; m_elems := %s; m_big := %s; m_layout := %s |}' % (
+                CQ_DT[a['dtype']], _cn_list(a['shape']), _cn_list(a['bits']), kv.cbool(a['big']), _LAY[a['layout']]))
+        steps = []
+        for a, o in zip(case['arrays'], obs['steps']):
+            ow = {'ok': 'WOk', 'refused': 'WRefused', 'indexerr': 'WIndexErr'}.get(o['write'], 'WOther')
+            ob = _cn_list(bytes.fromhex(o['hex'])) if o.get('hex') is not None else '[999%N]'
+            steps.append(kv.cpair(mem2(a), ow, ob, _robs(o.get('read'))))
+        first = dict(case, **case['arrays'][0])
+        dt, bits = expected_elems(first)
+        by = b''.join(b.to_bytes(ISZ[dt], 'little') for b in bits)
+        oby = _cn_list(bytes.fromhex(obs['bystander_hex'])) if obs.get('bystander_hex') is not None else '[999%N]'
+        return (f'(CRewrite {_API[case["api"]]} {"SFile" if case["store"] == "file" else "STar"} {_cn_list(by)} '
+                f'{kv.clist(steps)} {oby})')
     if k == 'two':
         def mem(a):
             return ('{| m_dtype := %s; m_shape := %s; m_elems := %s; m_big := false; m_layout := LContig |}' % (
@@ -973,6 +1099,8 @@ def nontrivial(case, obs):
         return len(case['bits']) > 0
     if case['k'] == 'two':
         return case['n1'] != case['n2']
+    if case['k'] == 'rewrite':
+        return len(case['arrays']) >= 2
     name = case.get('name', case.get('a', ''))
     return '/' in name or any(ord(ch) > 127 for ch in name)
 
@@ -991,6 +1119,11 @@ def classify(case, obs):
     if k == 'seq':
         return (f'seq/{len(case["steps"])}writes/{"BE" if case["big"] else "LE"}/'
                 f'{"writeable" if case["writeable"] else "readonly"}/stores={"+".join(sorted({s["store"] for s in case["steps"]}))}')
+    if k == 'rewrite':
+        sizes = [a['shape'][0] * a['shape'][1] * ISZ[a['dtype']] for a in case['arrays']]
+        shr = any(y < x for x, y in zip(sizes, sizes[1:]))
+        zero = any(y == 0 and x > 0 for x, y in zip(sizes, sizes[1:]))
+        return f'rewrite/{case["api"]}/{case["store"]}/{"shrinks" if shr else "grows"}{"+to-empty" if zero else ""}'
     if k == 'two':
         import unicodedata
         twin = unicodedata.normalize('NFC', case['n1']) == unicodedata.normalize('NFC', case['n2'])
@@ -1038,6 +1171,23 @@ def shrink(case):
             yield dict(case, layout='C')
         if case['ftype'] != 'SIFT':
             yield dict(case, ftype='SIFT')
+        return
+    if case['k'] == 'rewrite':
+        arrs = case['arrays']
+        if len(arrs) > 2:
+            for i in range(len(arrs)):
+                yield dict(case, arrays=arrs[:i] + arrs[i + 1:])
+        for i, a in enumerate(arrs):
+            r, c = a['shape']
+            for (r2, c2) in ((r // 2, c), (r, 1), (1, c), (0, c)):
+                if (r2, c2) != (r, c) and r2 <= r and c2 <= c and not (case['api'] == 'matches' and c2 != 3):
+                    b = [a['bits'][x * c + y] for x in range(r2) for y in range(c2)]
+                    yield dict(case, arrays=arrs[:i] + [dict(a, shape=[r2, c2], bits=b)] + arrs[i + 1:])
+            if a['big'] or a['layout'] != 'C':
+                yield dict(case, arrays=arrs[:i] + [dict(a, big=False, layout='C')] + arrs[i + 1:])
+        for key, val in (('ftype', 'SIFT'), ('name', 'img.depth' if case['api'] == 'depth' else 'img.jpg')):
+            if case[key] != val and case['other'] != val:
+                yield dict(case, **{key: val})
         return
     if case['k'] == 'two':
         for key in ('a1', 'a2'):
